@@ -12,7 +12,7 @@ miss=0
 for d in seeded/*${pat}*/; do
   id=$(basename $d); prop=${id%%-*}
   git -C $wt checkout -q -- . && git -C $wt clean -fdq
-  if ! git -C $wt apply $d/patch.diff 2>/dev/null; then echo "$id PATCH-DOES-NOT-APPLY"; miss=$((miss+1)); continue; fi
+  if ! git -C $wt apply /verif/$d/patch.diff 2>/dev/null; then echo "$id PATCH-DOES-NOT-APPLY"; miss=$((miss+1)); continue; fi
   VERIF_REPO=$wt bin/check $prop $tier > /tmp/regress_$id.log 2>&1; rc=$?
   n=$(grep -c '^VIOLATION' /tmp/regress_$id.log)
   if [ $rc -eq 1 ] && [ $n -gt 0 ]; then echo "$id caught ($n violation lines)"; rm -f /tmp/regress_$id.log
